@@ -952,7 +952,7 @@ CHECKS["C06"] = check_C06
 
 # ============================================================================= C12
 
-def restore_violations(before, after, inv_code, killed, archive_rows, internal=None):
+def restore_violations(before, after, inv_code, killed, archive_rows, internal=None, arch_path=None):
     probs = []
     rows_b = before["rows"] if before and isinstance(before["rows"], list) else []
     rows_a = after["rows"]
@@ -966,12 +966,29 @@ def restore_violations(before, after, inv_code, killed, archive_rows, internal=N
     if killed and archive_rows is not None and aset == bset | {tuple(r) for r in archive_rows} and aset != bset:
         # the kill came after the restore had committed: that is the "all" of all-or-nothing
         success = True
-    if not success:
+    dup = [r for r in (archive_rows or []) if (r[0], r[1]) in {(b[0], b[1]) for b in rows_b}]
+    if dup and aset != bset:
+        # the archive contains a version that is already recorded: this restore cannot complete, whatever it
+        # reports, and must leave the recorded versions as they were
+        probs.append(("restore-changed-recorded-versions-although-archive-holds-an-already-recorded-version",
+                      {"already_recorded": [list(r) for r in dup[:3]], "gained": sorted(aset - bset)[:4],
+                       "exit": inv_code}))
+    elif not success:
         if aset != bset:
             gained, lost = sorted(aset - bset), sorted(bset - aset)
             what = "partial-restore-left-recorded-versions" if gained and not lost else "failed-restore-changed-recorded-versions"
             probs.append((what + ("-after-kill" if killed else ""), {"gained": gained[:4], "lost": lost[:4]}))
     else:
+        at = I.archive_trees(arch_path) if arch_path and os.path.exists(arch_path) else None
+        if at is not None and archive_rows is not None and not killed:
+            for r in archive_rows:
+                rel = M.out_dir_rel(r[0], r[1])
+                if tuple(r) in aset and tuple(r) not in bset and rel not in (before or {}).get("tree", {}):
+                    want, got = I.subtree(at, rel), I.subtree(after["tree"], rel)
+                    if want and got and got != want:
+                        # "has its directory": the directory of the archive, not a part of it
+                        probs.append(("successful-restore-recorded-an-incomplete-directory",
+                                      {"dir": rel, "missing": sorted(set(want) - set(got))[:4]}))
         if archive_rows is None:
             probs.append(("restore-reported-success-for-unreadable-archive", {}))
         else:
@@ -1000,8 +1017,14 @@ def check_C12(run):
         inv = st.inv
         if inv is None or st.op["op"] != "restore" or st.before is None or st.after is None:
             continue
-        for sig, det in restore_violations(st.before, st.after, inv.code, inv.killed, st.archive_info):
+        for sig, det in restore_violations(st.before, st.after, inv.code, inv.killed, st.archive_info,
+                                           arch_path=getattr(st, "archive_orig_path", None) or getattr(st, "archive_path", None)):
             V.append(Violation("C12", sig, det, i))
+        if st.op.get("tar_killed"):
+            reach["tar_child_killed_by_signal"] = reach.get("tar_child_killed_by_signal", 0) + 1
+        if any((r[0], r[1]) in {(b[0], b[1]) for b in (st.before["rows"] if isinstance(st.before["rows"], list) else [])}
+               for r in (st.archive_info or [])):
+            reach["archive_holds_already_recorded_version"] = reach.get("archive_holds_already_recorded_version", 0) + 1
         outcome = "ok" if inv.code == 0 else "fail"
         corrupt = (st.op.get("corrupt") or {}).get("kind", "intact")
         rows_b = st.before["rows"] if isinstance(st.before["rows"], list) else []
@@ -1080,6 +1103,11 @@ def abort_violations(scn, op, before, snap, inv):
     tag = " [signal-arrived-inside-a-destructor]" if in_del else ""
     if inv.deadlock is not None:
         probs.append(("hang-after-interrupt" + tag, {"blocked": inv.deadlock}))
+    elif inv.internal is not None and inv.internal[0] == "BrokenPipeError" and op.get("stdout_gone_on_signal"):
+        # injected: the reader of Conductor's own stdout went away together with the interrupt.  Nothing can
+        # be reported there any more; what is demanded above (SIGTERM for everything in flight, nothing
+        # unfinished recorded) still holds, and the exit status is non-zero (uncaught exception)
+        pass
     elif inv.internal is not None:
         # had the command already reported its final failure when the signal arrived?  (then every task
         # had been dealt with and only the error report / exit was left)
